@@ -263,12 +263,19 @@ pub fn redex_of(kind: usize, rng: &mut Rng, cfg: &g::Cfg, depth: usize) -> fol::
             let d2 = d.saturating_sub(1);
             let f = formula(rng, cfg, d2);
             let h = if rng.chance(15) { f.clone() } else { formula(rng, cfg, d2) };
-            match rng.weighted(&[8, 2, 2, 1]) {
+            match rng.weighted(&[8, 2, 2, 1, 2]) {
                 0 => bin(B::Conjunction, bin(B::Implication, f.clone(), h.clone()), bin(B::Implication, h, f)),
                 1 => bin(B::Conjunction, bin(B::Implication, f.clone(), h.clone()), bin(B::Implication, f, h)),
                 2 => {
+                    // (F -> H) and (H -> K): only `llhs == rrhs` fails
                     let k = formula(rng, cfg, d2);
                     bin(B::Conjunction, bin(B::Implication, f, h.clone()), bin(B::Implication, h, k))
+                }
+                4 => {
+                    // (F -> H) and (K -> F): only `lrhs == rlhs` fails (intuitionistic.rs:203, second
+                    // conjunct of the guard falsified alone; audit 2, B16 / T10)
+                    let k = formula(rng, cfg, d2);
+                    bin(B::Conjunction, bin(B::Implication, f.clone(), h), bin(B::Implication, k, f))
                 }
                 _ => bin(B::Conjunction, bin(B::Implication, f.clone(), h.clone()), bin(B::ReverseImplication, f, h)),
             }
